@@ -199,7 +199,7 @@ func (k Kind) String() string {
 type Reaction struct {
 	Kind  Kind
 	Code  int           // encoded code (see Enc, ErrOf); unused for AppliedAcked
-	Delay time.Duration // sleep before reacting
+	Delay time.Duration // hold the answer back (after applying) this long or until the request's ctx is done
 }
 
 // TP names a topic partition.
@@ -530,8 +530,10 @@ func (f *Fake) produce(ctx context.Context, r *produce.Request) (kafka.Response,
 		ids[i] = recs[i].id
 	}
 
-	// Take the reaction first (FIFO per partition, in arrival order), then
-	// sleep outside the lock, then react.
+	// The request is handled when it is received: take the reaction (FIFO per
+	// partition, in arrival order), apply it to the log and journal it. A
+	// Delay then holds the answer back, outside the lock, for that long or
+	// until the request's context is done, whichever comes first.
 	f.mu.Lock()
 	react := Reaction{Kind: AppliedAcked}
 	if s := f.scripts[tp]; len(s) > 0 {
@@ -553,15 +555,6 @@ func (f *Fake) produce(ctx context.Context, r *produce.Request) (kafka.Response,
 			}
 		}
 	}
-	f.mu.Unlock()
-
-	if react.Delay > 0 {
-		time.Sleep(react.Delay)
-	}
-
-	f.mu.Lock()
-	defer f.mu.Unlock()
-
 	base := int64(len(f.logs[tp]))
 	applied := react.Kind == AppliedAcked || react.Kind == AppliedLost
 	if n, ok := f.topics[topic]; !ok || tp.Partition < 0 || tp.Partition >= n {
@@ -596,6 +589,30 @@ func (f *Fake) produce(ctx context.Context, r *produce.Request) (kafka.Response,
 	}
 	att.Seq = f.hist.Do(func(int) string { return FormatAttempt(tname, att) })
 	f.journal = append(f.journal, att)
+	jidx := len(f.journal) - 1
+	f.mu.Unlock()
+
+	if react.Delay > 0 {
+		t := time.NewTimer(react.Delay)
+		select {
+		case <-t.C:
+		case <-ctx.Done():
+			// The client gave up first: it sees its context's error, whatever
+			// the broker did with the request.
+			t.Stop()
+			goErr = ctx.Err()
+			f.mu.Lock()
+			att.Seen = Classify(goErr)
+			f.journal[jidx] = att
+			if react.Kind == AppliedAcked {
+				for _, id := range ids {
+					delete(f.acked, id)
+				}
+			}
+			f.mu.Unlock()
+			f.hist.Patch(att.Seq, FormatAttempt(tname, att))
+		}
+	}
 
 	if goErr != nil {
 		return nil, goErr
